@@ -391,7 +391,7 @@ impl<T: GseDecapMemory, C: CrcCalculator, MHEM: MandatoryHeaderExtensionManager>
 
         if is_there_header_ext {
             match iterate_over_extension_header(
-                &buffer[offset..],
+                &buffer[offset..pkt_len],
                 &self.mandatory_extension_manager,
                 protocol_type,
             ) {
@@ -629,7 +629,7 @@ impl<T: GseDecapMemory, C: CrcCalculator, MHEM: MandatoryHeaderExtensionManager>
 
         if is_there_extension_header {
             match iterate_over_extension_header(
-                &buffer[offset..],
+                &buffer[offset..pkt_len],
                 &self.mandatory_extension_manager,
                 protocol_type,
             ) {
@@ -966,6 +966,9 @@ fn iterate_over_extension_header<MHEM: MandatoryHeaderExtensionManager>(
                 }
 
                 MandatoryHeaderExt::Final(size_data) => {
+                    if pdu_len < offset + size_data as usize {
+                        return Err(ExtensionHeaderError::BufferTooSmall);
+                    }
                     match Extension::new(protocol_type, &pdu[offset..offset + size_data as usize]) {
                         Ok(extension) => extensions.push(extension),
                         Err(_) => todo!(),
@@ -976,6 +979,9 @@ fn iterate_over_extension_header<MHEM: MandatoryHeaderExtensionManager>(
                 }
 
                 MandatoryHeaderExt::NonFinal(size_data) => {
+                    if pdu_len < offset + size_data as usize {
+                        return Err(ExtensionHeaderError::BufferTooSmall);
+                    }
                     match Extension::new(protocol_type, &pdu[offset..offset + size_data as usize]) {
                         Ok(extension) => extensions.push(extension),
                         Err(_) => todo!(),
@@ -993,6 +999,9 @@ fn iterate_over_extension_header<MHEM: MandatoryHeaderExtensionManager>(
             // H-LEN = 0 <=> mandatory header extension, case already managed
             // H-LEN > 5 <=> protocol type > SECOND_RANGE_PTYPE, unreachable
 
+            if pdu_len < offset + current_ext_data_len {
+                return Err(ExtensionHeaderError::BufferTooSmall);
+            }
             let current_ext = Extension::new(
                 protocol_type,
                 &pdu[offset..offset + current_ext_data_len],
@@ -1005,6 +1014,9 @@ fn iterate_over_extension_header<MHEM: MandatoryHeaderExtensionManager>(
             offset += current_ext_data_len;
         }
         // reading protocol type for next iteration
+        if pdu_len < offset + PROTOCOL_LEN {
+            return Err(ExtensionHeaderError::BufferTooSmall);
+        }
         protocol_type = u16::from_be_bytes(pdu[offset..offset + PROTOCOL_LEN].try_into().unwrap());
         offset += PROTOCOL_LEN;
     }
